@@ -1313,7 +1313,9 @@ def variants_for(ctx, pid):
                 ("p3", b, {}, {"GOGC": "400", "GOMAXPROCS": "16"}), ("p4", b, dict(dumpcopy=True), {"GOGC": "50"})]
     if pid == "C14":
         b = build_executor(ctx)
-        return [("typed", b, dict(CELLS["typed11"]), {}), ("unsafe", b, dict(CELLS["unsafe1"]), {}),
+        # (unbatchnew: the ID-based execution creates the entities of a batch creation one by one through Unsafe.NewEntity -
+        # there is no ID-based batch creation, and MapN.NewBatchFn must equal the ID-based calls it corresponds to)
+        return [("typed", b, dict(CELLS["typed11"]), {}), ("unsafe", b, dict(CELLS["unsafe1"], unbatchnew=True), {}),
                 ("typedidx", b, dict(CELLS["typed1"], perm=True), {}), ("exchange", b, dict(CELLS["exch8"]), {}),
                 ("mapt", b, dict(CELLS["mapt1"]), {})]
     if pid == "C06":
